@@ -5,39 +5,33 @@
    (obs) plus ref counters and name-authority state.
    Proved: for the repaired model the heap returned with Raise IS the heap passed in (for every history and
    every op in scope), hence obs_all is unchanged; for the current model the same along every history that
-   avoids the known defect sites and for every rejected op that is not itself a defect site; at each defect
-   site a refutation witness.  `_partial`: Graph(...) called with arguments is outside `in_scope`. *)
+   avoids the one unrepaired site (SNodeOutputsOwned, which never raises) ; Graph(...) with arguments is inside the
+   theorems since 680d931.  `_refuted_before_fix` theorems record the repaired sites. *)
 From Coq Require Import ZArith List Bool Arith Lia.
 From IRV Require Import Base.Exn C01.Model C01.Proofs C06.Proofs.
 Import ListNotations.
 
-Theorem C06_raise_frame_fixed_partial :
-  forall ops op h' e, forallb in_scope (ops ++ [op]) = true ->
-    step all_fixed (run all_fixed ops empty_heap) op = (h', Raise e) ->
-    h' = run all_fixed ops empty_heap.
-Proof.
-  intros ops op h' e Hsc Hs. rewrite forallb_app in Hsc. apply andb_prop in Hsc. destruct Hsc as [H1 H2].
-  simpl in H2. rewrite andb_true_r in H2.
-  eapply frame_step; [exact H2| |exact Hs]. apply Inv_run_fixed; [assumption|apply Inv_empty].
-Qed.
-Print Assumptions C06_raise_frame_fixed_partial.
+Theorem C06_raise_frame_fixed :
+  forall ops op h' e, step all_fixed (run all_fixed ops empty_heap) op = (h', Raise e) -> h' = run all_fixed ops empty_heap.
+Proof. intros ops op h' e Hs. eapply frame_step; [|exact Hs]. apply Inv_run_fixed. apply Inv_empty. Qed.
+Print Assumptions C06_raise_frame_fixed.
 
-(* the code as it is: the history avoids the known defect sites and so does the rejected call *)
-Theorem C06_raise_frame_partial :
-  forall ops op h' e, forallb in_scope (ops ++ [op]) = true -> clean current_cfg (ops ++ [op]) empty_heap ->
+(* the code as it is: the history (rejected call included) never takes the one unrepaired branch (SNodeOutputsOwned) *)
+Theorem C06_raise_frame :
+  forall ops op h' e, clean current_cfg (ops ++ [op]) empty_heap ->
     step current_cfg (run current_cfg ops empty_heap) op = (h', Raise e) ->
     obs_all h' = obs_all (run current_cfg ops empty_heap).
 Proof.
-  intros ops op h' e Hsc Hc Hs.
+  intros ops op h' e Hc Hs.
   assert (Hpre : clean current_cfg ops empty_heap /\
                  step current_cfg (run current_cfg ops empty_heap) op = step all_fixed (run current_cfg ops empty_heap) op).
-  { clear Hs Hsc. revert Hc. generalize empty_heap. induction ops as [|o t IH]; intros h Hc; simpl in *.
+  { clear Hs. revert Hc. generalize empty_heap. induction ops as [|o t IH]; intros h Hc; simpl in *.
     - tauto.
     - destruct Hc as [He Hc]. destruct (IH _ Hc) as [A B]. auto. }
   destruct Hpre as [Hcl Heq]. rewrite Heq in Hs. rewrite (clean_run _ _ _ Hcl) in *.
-  rewrite (C06_raise_frame_fixed_partial ops op h' e Hsc Hs). reflexivity.
+  rewrite (C06_raise_frame_fixed ops op h' e Hs). reflexivity.
 Qed.
-Print Assumptions C06_raise_frame_partial.
+Print Assumptions C06_raise_frame.
 
 (* non-vacuity: a clean in-scope history with three rejected calls (positions 10, 11, 16) *)
 Definition demo : list op :=
@@ -46,8 +40,8 @@ Definition demo : list op :=
    NewNode 0 [Some 0; None; Some 0] (OFresh [2; 3]) (Some 1) None; IOAppend KIn 2 0;
    IOAppend KIn 1 2; NReplaceInput 0 1 (Some 1); VSetName 0 (Some (NUser 3));
    IOPop KOut 0 0; GRemove 1 [0] true; IOPop KIn 0 7].
-Example demo_ok : forallb in_scope demo = true /\ clean current_cfg demo empty_heap.
-Proof. split; [reflexivity|]. cbn [clean demo]. repeat (split; [vm_compute; reflexivity|]). exact I. Qed.
+Example demo_ok : clean current_cfg demo empty_heap.
+Proof. cbn [clean demo]. repeat (split; [vm_compute; reflexivity|]). exact I. Qed.
 Example demo_rejections :
   map (fun i => snd (step current_cfg (run current_cfg (firstn i demo) empty_heap) (nth i demo (IOClear KIn 0))))
       [10; 11; 16] = [Raise ValueError; Raise ValueError; Raise IndexError].
@@ -92,6 +86,12 @@ Theorem C06_rau_outputs_refuted_before_fix :
   changed original_cfg (w_pre ++ [IOAppend KOut 0 0]) (VReplaceAllUses 0 1 true) = true.
 Proof. vm_compute. reflexivity. Qed.
 Print Assumptions C06_rau_outputs_refuted_before_fix.
+(* OPEN site: initializers.update({ok, rejected}) keeps `ok` registered (inherited MutableMapping.update) *)
+Theorem C06_initupdate_refuted :
+  changed current_cfg [NewValue 0 (Some (NUser 0)); NewValue 1 (Some (NUser 1)); GraphNew 0 [] [] [] []; GraphNew 1 [1] [] [] []]
+          (InitUpdate 0 [(Some (NUser 0), 0); (Some (NUser 1), 1)]) = true.
+Proof. vm_compute. reflexivity. Qed.
+Print Assumptions C06_initupdate_refuted.
 Theorem C06_graphnew_refuted_before_fix : changed original_cfg w_pre (GraphNew 2 [0; 1] [] [] []) = true.
 Proof. vm_compute. reflexivity. Qed.
 Print Assumptions C06_graphnew_refuted_before_fix.
